@@ -72,8 +72,8 @@ def run(ctx):
             terms.append(f'(death_prob {"true" if is_tp else "false"} {qlit(rate)} {qlit(F(1, 1000))} {qlit(rel)} {UC[mod.t.unit]} {qlit(float(mod.t.dt))}, {qlit(p)})')
             metas.append(key | dict(what='deaths', form=form))
         # ---------------- Births
-        for form in ('number', 'timepar'):
-            br = rate if form == 'number' else ss.peryear(rate)
+        for form in ('number', 'timepar', 'table'):
+            br = rate if form == 'number' else (ss.peryear(rate) if form == 'timepar' else pd.DataFrame(dict(Year=[1990, 2000, 2030], CBR=[rate, rate, rate])))
             try:
                 sim = ss.Sim(n_agents=12, demographics=ss.Births(birth_rate=br, rel_birth=rel, **modkw), verbose=0, **simkw); sim.init()
             except Exception as E:
@@ -90,7 +90,7 @@ def run(ctx):
             want = min(1.0, max(0.0, rate * units * rel * dty))
             ctx.count(('births', form, repr(key)), nontrivial=nontriv); ctx.dist(f'births/{form}')
             if p is None or abs(p - want) > 1e-9 * max(1, want):
-                ctx.violation(f'Births({form} rate {rate}) in {simkw["unit"]}/{simkw["dt"]} module {modkw}: per-step birth probability {p}, rate x step length = {want}', key | dict(form=form))
+                ctx.violation(f'Births({form} rate {rate}, rel {rel}) in {simkw["unit"]}/{simkw["dt"]} module {modkw}: per-step birth probability {p}, rate x step length = {want}', key | dict(form=form))
             if p is not None:
                 terms.append(f'(birth_prob {"true" if is_tp else "false"} {qlit(rate)} {qlit(F(1, 1000))} {qlit(rel)} {UC[mod.t.unit]} {qlit(float(mod.t.dt))}, {qlit(p)})')
                 metas.append(key | dict(what='births', form=form))
@@ -136,6 +136,8 @@ def tables(ctx, ss):
         sim = ss.Sim(n_agents=60, demographics=[ss.Pregnancy(fertility_rate=900, burnin=False), ss.Deaths(death_rate=df)], start=start, dur=3, verbose=0, rand_seed=3)
         sim.init(); sim.run(until=sim.t.yearvec[1])
         mod = sim.demographics.deaths; ppl = sim.people
+        edge = np.asarray(ppl.auids)[:8]
+        ppl.age[ss.uids(edge)] = np.array([0.0, 5.0, 60.0, 4.999999, 59.999999, 5.000001, 100.0, 0.0])[:len(edge)]   # agents exactly at (and next to) the bin starts
         p = np.asarray(ss.Deaths.make_death_prob_fn(mod, sim, ppl.auids), dtype=float)
         now = float(sim.t.now('year')); ny = min((1990, 2000, 2010), key=lambda y: abs(y - now))
         ctx.count(('table', start)); ctx.dist('mortality table lookup')
